@@ -355,6 +355,7 @@ func FactsC06(f *hc.Facts) {
 			f.Missing(p[0], "crypto.getX case "+p[1])
 		}
 	}
+	f.TranslateFuncs("crypto", "getX", "getX")
 	hashWrites(f, "msgKeyLarge", "crypto", "msgKeyLarge")
 	firstSlice(f, "messageKey", "crypto", "messageKey", "messageKeyLarge")
 	hashWrites(f, "sha256a", "crypto", "sha256a")
